@@ -120,7 +120,154 @@ func minmax(v []int64) (int64, int64) {
 	return mn, mx
 }
 
+// spikyData: a growing stream (every record a new maximum) with events stamped ahead of or behind the stream,
+// placed mostly at the borders of the 250-record segments the index rebuild scans (position base+i in the chunk):
+// what a partition looks like when a few sources have a wrong clock. Non-monotone on purpose.
+func spikyData(r *Rng, n int, cur *int64, base int) []int64 {
+	out := make([]int64, n)
+	for i := range out {
+		*cur += int64(r.Range(1, 3))
+		out[i] = *cur
+		m := (base + i) % 250
+		border := m == 249 || m == 248 || m == 0 || m == 1
+		if (border && r.Chance(2, 5)) || r.Chance(1, 200) {
+			d := int64(r.PickInt(1, 2, 5, 30, 200, 700, 1500))
+			if r.Chance(3, 4) {
+				out[i] = *cur + d // ahead of the stream
+			} else {
+				out[i] = *cur - d // late
+			}
+		}
+	}
+	return out
+}
+
+// blockData: segments of the rebuild that are growing, falling or flat, stepping up or down between segments
+func blockData(r *Rng, n int, cur *int64, base int) []int64 {
+	out := make([]int64, n)
+	dir := int64(1)
+	for i := range out {
+		if (base+i)%250 == 0 || r.Chance(1, 400) {
+			dir = int64(r.PickInt(1, 1, 1, -1, 0))
+			*cur += int64(r.PickInt(-400, -30, -1, 0, 1, 30, 400))
+		}
+		*cur += dir * int64(r.Range(0, 2))
+		out[i] = *cur
+	}
+	return out
+}
+
+// indexBounds is the meaning of a chunk's index that the range selector relies on, evaluated on the records the
+// TsIndexer reports against the chunk's timestamps: records ordered by timestamp; for a record (T, p) every
+// position before p has a timestamp <= T and every position after p a timestamp >= T. "" = holds.
+func indexBounds(recs []tmindex.IdxRecord, data []int64) string {
+	if len(recs) < 2 || len(data) == 0 {
+		return ""
+	}
+	n := len(data)
+	pmax := make([]int64, n+1) // pmax[i] = max data[0:i]
+	smin := make([]int64, n+2) // smin[i] = min data[i:]
+	pmax[0] = -9223372036854775808
+	for i, v := range data {
+		pmax[i+1] = pmax[i]
+		if v > pmax[i+1] {
+			pmax[i+1] = v
+		}
+	}
+	smin[n], smin[n+1] = 9223372036854775807, 9223372036854775807
+	for i := n - 1; i >= 0; i-- {
+		smin[i] = smin[i+1]
+		if data[i] < smin[i] {
+			smin[i] = data[i]
+		}
+	}
+	for k, rc := range recs {
+		if k > 0 && recs[k-1].Ts > rc.Ts {
+			return fmt.Sprintf("index records not ordered by timestamp: (%d,%d) before (%d,%d)", recs[k-1].Ts, recs[k-1].Val, rc.Ts, rc.Val)
+		}
+		p := int(rc.Val)
+		if p > n {
+			p = n
+		}
+		if pmax[p] > rc.Ts {
+			return fmt.Sprintf("index record (%d,%d): a record before position %d has the greater timestamp %d", rc.Ts, rc.Val, rc.Val, pmax[p])
+		}
+		if p+1 <= n && smin[p+1] < rc.Ts {
+			return fmt.Sprintf("index record (%d,%d): a record after position %d has the smaller timestamp %d", rc.Ts, rc.Val, rc.Val, smin[p+1])
+		}
+	}
+	return ""
+}
+
+// genCiRebuild: chunks the index learns by SyncChunks (hull from the first and last record, no index), rebuilt by
+// scanning non-monotone data, then questioned; optionally written to afterwards
+func genCiRebuild(r *Rng) *CiCase {
+	cc := &CiCase{}
+	cur := int64(r.Range(-300, 5000))
+	var cks []CiChunk
+	nck := r.PickInt(1, 1, 2)
+	for c := 1; c <= nck; c++ {
+		n := r.PickInt(1, 10, 249, 250, 251, 499, 500, 501, 760, 1000, 1300)
+		var d []int64
+		switch r.PickStr("spiky", "spiky", "spiky", "block", "block", "jitter", "random", "mono") {
+		case "spiky":
+			d = spikyData(r, n, &cur, 0)
+		case "block":
+			d = blockData(r, n, &cur, 0)
+		case "jitter":
+			d = tsProcess(r, "jitter", n, &cur)
+		case "random":
+			d = tsProcess(r, "random", n, &cur)
+		default:
+			d = tsProcess(r, "mono", n, &cur)
+		}
+		cks = append(cks, CiChunk{Cid: int64(c), Data: d})
+	}
+	cc.Ops = append(cc.Ops, CiOp{K: "sync", Cks: cks})
+	for _, ck := range cks {
+		pickTs := func() int64 {
+			if r.Chance(1, 12) {
+				return int64(r.Range(-600, 6000))
+			}
+			p := r.Intn(len(ck.Data))
+			if r.Chance(1, 2) { // near a segment border of the rebuild
+				p = (r.Intn(len(ck.Data)/250+1))*250 + r.Range(-3, 3)
+				if p < 0 {
+					p = 0
+				}
+				if p >= len(ck.Data) {
+					p = len(ck.Data) - 1
+				}
+			}
+			return ck.Data[p] + int64(r.Range(-1, 1))
+		}
+		if r.Chance(1, 3) {
+			cc.Ops = append(cc.Ops, CiOp{K: "ge", Cid: ck.Cid, Ts: pickTs()}, CiOp{K: "data", Cid: ck.Cid})
+		}
+		cc.Ops = append(cc.Ops, CiOp{K: "rebuild", Cid: ck.Cid, Data: append([]int64{}, ck.Data...)})
+		cc.Ops = append(cc.Ops, CiOp{K: "data", Cid: ck.Cid}, CiOp{K: "info", Cid: ck.Cid})
+		for j := 0; j < 8; j++ {
+			cc.Ops = append(cc.Ops, CiOp{K: "ge", Cid: ck.Cid, Ts: pickTs()}, CiOp{K: "lt", Cid: ck.Cid, Ts: pickTs()})
+		}
+	}
+	// the last chunk goes on being written after its rebuild
+	last := cks[len(cks)-1]
+	pos := int64(len(last.Data))
+	for k := r.Range(0, 3); k > 0; k-- {
+		n := r.PickInt(1, 10, 250, 251)
+		tss := spikyData(r, n, &cur, int(pos))
+		mn, mx := minmax(tss)
+		cc.Ops = append(cc.Ops, CiOp{K: "write", Cid: last.Cid, First: pos, Last: pos + int64(n) - 1, Mn: mn, Mx: mx})
+		pos += int64(n)
+		cc.Ops = append(cc.Ops, CiOp{K: "data", Cid: last.Cid}, CiOp{K: "ge", Cid: last.Cid, Ts: mn}, CiOp{K: "lt", Cid: last.Cid, Ts: mx})
+	}
+	return cc
+}
+
 func genCi(r *Rng, i int) *CiCase {
+	if i%3 == 2 {
+		return genCiRebuild(r)
+	}
 	cc := &CiCase{}
 	kind := r.PickStr("mono", "mono", "mono", "zero", "jitter", "random")
 	cur := int64(r.Range(1, 2000))
@@ -266,6 +413,8 @@ func runCi(rp Replay) (*Case, error) {
 	var ops, obs []string
 	nontriv := false
 	hull := map[int64][2]int64{}
+	var viol *Violation
+	rebuilds := 0
 	for _, op := range rp.Ci.Ops {
 		switch op.K {
 		case "write":
@@ -308,9 +457,22 @@ func runCi(rp Replay) (*Case, error) {
 				hull[op.Cid] = [2]int64{ri.MinTs, ri.MaxTs}
 			}
 		case "rebuild":
+			_, e0 := ti.ReadData(src, chunk.Id(op.Cid))
 			ti.RebuildIndex(ctx, src, newMemChunk(op.Cid, op.Data), false)
 			ops = append(ops, GApp("CRebuild", GZ(op.Cid), gRle(op.Data)))
 			obs = append(obs, "BUnit")
+			// oracle: an index that was just built by scanning the chunk (there was none before) bounds the chunk's
+			// timestamps, whatever their order, and the hull contains them
+			if d1, e1 := ti.ReadData(src, chunk.Id(op.Cid)); e0 != nil && e1 == nil && len(op.Data) > 0 {
+				rebuilds++
+				if msg := indexBounds(d1, op.Data); msg != "" && viol == nil {
+					viol = &Violation{Class: "rebuilt-index-bounds", Detail: fmt.Sprintf("chunk %d (%d records) rebuilt by scanning: %s", op.Cid, len(op.Data), msg)}
+				}
+				mn, mx := minmax(op.Data)
+				if ri, e := ti.GetRecordsInfo(src, chunk.Id(op.Cid)); e == nil && (ri.MinTs > mn || ri.MaxTs < mx) && viol == nil {
+					viol = &Violation{Class: "rebuilt-index-hull", Detail: fmt.Sprintf("chunk %d rebuilt by scanning: hull [%d,%d] does not contain the timestamps [%d,%d]", op.Cid, ri.MinTs, ri.MaxTs, mn, mx)}
+				}
+			}
 		case "sync":
 			var cks chunk.Chunks
 			var its []string
@@ -330,6 +492,8 @@ func runCi(rp Replay) (*Case, error) {
 		Coq:        GApp("KCi", GList(ops), GList(obs)),
 		Replay:     rp,
 		NonTrivial: nontriv,
+		Oracle:     viol,
 		Stream:     "ci",
+		Tags:       []string{fmt.Sprintf("ci-scanned-rebuilds:%v", rebuilds > 0)},
 	}, nil
 }
